@@ -32,7 +32,7 @@ type target struct {
 
 var typeMap = map[string]string{
 	"uint": "UInt64", "uint64": "UInt64", "uint32": "UInt32", "uint8": "UInt8", "byte": "UInt8", "bool": "Bool",
-	"int": "Int64", "int64": "Int64",
+	"int": "Int64", "int64": "Int64", "time.Duration": "Int64",
 	"VotingPower": "UInt64", "types.VotingPower": "UInt64", "SchemaVersion": "UInt64", "DataAvailabilityMode": "UInt32",
 }
 
@@ -61,6 +61,11 @@ type tr struct {
 	leanOf  map[string]string // go func/method name -> lean name (for calls)
 	retType string
 	consts  map[string]string // local untyped integer constants
+	// struct-typed receiver / parameters: name -> struct type name. A read `x.f` of an integer field becomes
+	// the extra parameter `x_f` (in order of first use); nothing else may be done with such a variable.
+	structVars  map[string]string
+	structs     map[string]map[string]string // struct type -> field -> Go type name (same package)
+	fieldParams []string
 }
 
 func fail(format string, a ...any) {
@@ -115,6 +120,23 @@ func (t *tr) expr(e ast.Expr, want string) (string, string) {
 			want = "UInt64"
 		}
 		return fmt.Sprintf("(%s : %s)", x.Value, want), want
+	case *ast.SelectorExpr:
+		if id, ok := x.X.(*ast.Ident); ok {
+			if st, ok := t.structVars[id.Name]; ok {
+				ft, ok := t.structs[st][x.Sel.Name]
+				if !ok {
+					fail("field %s.%s not found (or not a plain field) in struct %s", id.Name, x.Sel.Name, st)
+				}
+				lt := leanType(ft)
+				name := id.Name + "_" + x.Sel.Name
+				if _, seen := t.env[name]; !seen {
+					t.env[name] = lt
+					t.fieldParams = append(t.fieldParams, fmt.Sprintf("(%s : %s)", name, lt))
+				}
+				return name, lt
+			}
+		}
+		fail("selector %v", x.Sel.Name)
 	case *ast.StarExpr:
 		if id, ok := x.X.(*ast.Ident); ok && t.ptrRecv && id.Name == t.recv {
 			return id.Name, t.env[id.Name]
@@ -139,6 +161,18 @@ func (t *tr) expr(e ast.Expr, want string) (string, string) {
 					return s, lt
 				}
 				return fmt.Sprintf("(%s).to%s", s, lt), lt
+			}
+			if (id.Name == "min" || id.Name == "max") && len(x.Args) == 2 {
+				_, aIsLit := x.Args[0].(*ast.BasicLit)
+				var a, b, ty string
+				if aIsLit {
+					b, ty = t.expr(x.Args[1], want)
+					a, _ = t.expr(x.Args[0], ty)
+				} else {
+					a, ty = t.expr(x.Args[0], want)
+					b, _ = t.expr(x.Args[1], ty)
+				}
+				return "(" + id.Name + " " + a + " " + b + ")", ty
 			}
 			if ln, ok := t.leanOf[id.Name]; ok {
 				var args []string
@@ -409,7 +443,51 @@ func main() {
 		if fd == nil {
 			fail("function %s.%s not found in %s", tg.Recv, tg.Func, tg.File)
 		}
-		t := &tr{env: map[string]string{}, leanOf: leanOf, consts: map[string]string{}}
+		t := &tr{env: map[string]string{}, leanOf: leanOf, consts: map[string]string{}, structVars: map[string]string{}, structs: map[string]map[string]string{}}
+		// struct types of the package (all non-test files of the directory): plain named fields only
+		if pkgFiles, err := filepath.Glob(filepath.Join(repo, filepath.Dir(tg.File), "*.go")); err == nil {
+			for _, pf := range pkgFiles {
+				if strings.HasSuffix(pf, "_test.go") {
+					continue
+				}
+				af, err := parser.ParseFile(token.NewFileSet(), pf, nil, 0)
+				if err != nil {
+					continue
+				}
+				for _, d := range af.Decls {
+					gd, ok := d.(*ast.GenDecl)
+					if !ok || gd.Tok != token.TYPE {
+						continue
+					}
+					for _, sp := range gd.Specs {
+						ts := sp.(*ast.TypeSpec)
+						st, ok := ts.Type.(*ast.StructType)
+						if !ok {
+							continue
+						}
+						fm := map[string]string{}
+						for _, fl := range st.Fields.List {
+							var tn string
+							switch ft := fl.Type.(type) {
+							case *ast.Ident:
+								tn = ft.Name
+							case *ast.SelectorExpr:
+								if pk, ok := ft.X.(*ast.Ident); ok {
+									tn = pk.Name + "." + ft.Sel.Name
+								}
+							}
+							if tn == "" {
+								continue
+							}
+							for _, n := range fl.Names {
+								fm[n.Name] = tn
+							}
+						}
+						t.structs[ts.Name.Name] = fm
+					}
+				}
+			}
+		}
 		// package-level untyped integer constants of the same file (literal values only)
 		for _, d := range file.Decls {
 			gd, ok := d.(*ast.GenDecl)
@@ -435,11 +513,23 @@ func main() {
 				t.ptrRecv = true
 				rt = rt[1:]
 			}
-			lt := leanType(rt)
-			t.env[t.recv] = lt
-			params = append(params, fmt.Sprintf("(%s : %s)", t.recv+"0", lt))
+			if _, isStruct := t.structs[rt]; isStruct {
+				t.structVars[t.recv] = rt
+				t.ptrRecv = false // fields of the receiver are only read (an assignment fails in lhsName)
+			} else {
+				lt := leanType(rt)
+				t.env[t.recv] = lt
+				params = append(params, fmt.Sprintf("(%s : %s)", t.recv+"0", lt))
+			}
 		}
 		for _, p := range fd.Type.Params.List {
+			pt := strings.TrimPrefix(typeName(p.Type), "*")
+			if _, isStruct := t.structs[pt]; isStruct {
+				for _, n := range p.Names {
+					t.structVars[n.Name] = pt
+				}
+				continue
+			}
 			lt := leanType(typeName(p.Type))
 			for _, n := range p.Names {
 				t.env[n.Name] = lt
@@ -457,12 +547,14 @@ func main() {
 		var body []string
 		// parameters are mutable locals in Go
 		names := []string{}
-		if fd.Recv != nil {
+		if fd.Recv != nil && t.structVars[t.recv] == "" {
 			names = append(names, t.recv)
 		}
 		for _, p := range fd.Type.Params.List {
 			for _, n := range p.Names {
-				names = append(names, n.Name)
+				if t.structVars[n.Name] == "" {
+					names = append(names, n.Name)
+				}
 			}
 		}
 		for _, n := range names {
@@ -476,6 +568,7 @@ func main() {
 		h := sha256.Sum256(src[start.Offset:end.Offset])
 		sb.WriteString(fmt.Sprintf("/-- `%s` `%s%s` (lines %d-%d, sha256 of the function text %x). -/\n", tg.File,
 			map[bool]string{true: tg.Recv + ".", false: ""}[tg.Recv != ""], tg.Func, start.Line, end.Line, h[:6]))
+		params = append(params, t.fieldParams...)
 		sb.WriteString(fmt.Sprintf("def %s %s : %s := Id.run do\n", tg.Lean, strings.Join(params, " "), t.retType))
 		sb.WriteString(strings.Join(body, "\n"))
 		sb.WriteString("\n\n")
